@@ -6,6 +6,7 @@ import (
 	"hash/fnv"
 	"reflect"
 	"sort"
+	"strconv"
 	"strings"
 
 	"verif/engine/smt"
@@ -715,6 +716,14 @@ func (um *xmlm) setScalar(fp *Ptr, ft types.Type, v *smt.Term) bool {
 			return true
 		case u.Info()&types.IsInteger != 0:
 			w, _ := bvWidth(u)
+			if v.Const {
+				n, err := strconv.ParseInt(strings.TrimSpace(v.Str), 10, 64)
+				if err != nil {
+					return um.fail("bad integer value")
+				}
+				in.store(fp, smt.BV(uint64(n), w))
+				return true
+			}
 			ok := smt.UF("atoi_ok", []string{"String"}, &smt.Term{K: smt.KBool}, v)
 			if !in.Branch(ok) {
 				return um.fail("bad integer value")
@@ -723,6 +732,14 @@ func (um *xmlm) setScalar(fp *Ptr, ft types.Type, v *smt.Term) bool {
 			in.store(fp, smt.Extract(val, w-1, 0))
 			return true
 		case u.Info()&types.IsBoolean != 0:
+			if v.Const {
+				bv, err := strconv.ParseBool(strings.TrimSpace(v.Str))
+				if err != nil {
+					return um.fail("bad bool value")
+				}
+				in.store(fp, smt.Bool(bv))
+				return true
+			}
 			ok := smt.UF("atob_ok", []string{"String"}, &smt.Term{K: smt.KBool}, v)
 			if !in.Branch(ok) {
 				return um.fail("bad bool value")
